@@ -691,6 +691,8 @@ func TestVerifC10(t *testing.T) {
 		stride := 1
 		if !small {
 			stride = vfScale(61, 5)
+		} else if !vfThorough() && s != shapes[0] && s != shapes[1] {
+			stride = 3 // quick tier: every position for the first two shapes, every third for the rest
 		}
 		startOff := r.Intn(stride)
 		for pos := startOff; pos < len(s.strm); pos += stride {
